@@ -25,6 +25,7 @@ import (
 // Paser represents a Redis serialization protocol (RESP) parser.
 type Parser struct {
 	reader io.Reader
+	depth  int
 }
 
 // NewParserWithReader returns a new parser for the specified reader.
@@ -139,6 +140,12 @@ func (parser *Parser) nextBulkMessage() (*Message, error) {
 
 // nextArrayMessage gets a next array message in the next array.
 func (parser *Parser) nextArrayMessage() (*Message, error) {
+	// Arrays are parsed recursively, so the nesting is limited to protect the stack.
+	if maxArrayDepth <= parser.depth {
+		return nil, fmt.Errorf(errorTooDeepArray, maxArrayDepth)
+	}
+	parser.depth++
+	defer func() { parser.depth-- }()
 	array, err := newArrayWithParser(parser)
 	if err != nil {
 		return nil, err
